@@ -106,7 +106,7 @@ def rewrites(H):
     H.prove(state_equal(H, st0, st1), f"{which}.same_state_after")
 
 
-@obligation(P, "path.next_pos", split=("cmd", tuple(c for c in CMDS if c not in "Zz")), functions=[T + "_next_pos"])
+@obligation((P, "C20", "C13"), "path.next_pos", split=("cmd", tuple(c for c in CMDS if c not in "Zz")), functions=[T + "_next_pos"])
 def next_pos(H):
     """_next_pos is the SVG current point after the command (every command except closepath)."""
     cmd = H.case("cmd", tuple(c for c in CMDS if c not in "Zz"))
@@ -117,7 +117,7 @@ def next_pos(H):
     H.prove(H.close(tuple(got), tuple(st0[0])), "next_pos.is_spec_current_point")
 
 
-@obligation(P, "path.move_endpoint", split=("cmd", CMDS), functions=[T + "_move_endpoint"])
+@obligation((P, "C20", "C13"), "path.move_endpoint", split=("cmd", CMDS), functions=[T + "_move_endpoint"])
 def move_endpoint(H):
     """_move_endpoint changes the end point only: same kind of segment (h/v become lines), same control points."""
     cmd = H.case("cmd", CMDS)
@@ -150,7 +150,7 @@ def _captured_walk_callback(H, run):
     return args[-1] if args else kwargs.get("callback")
 
 
-@obligation((P, "C01", "C07"), "path.rewrite_callback", split=("cmd", CMDS), functions=[T + "SVGPath._rewrite_path", T + "SVGPath.absolute", T + "SVGPath.relative", T + "SVGPath.absolute_moveto"])
+@obligation((P, "C01", "C07", "C20", "C13"), "path.rewrite_callback", split=("cmd", CMDS), functions=[T + "SVGPath._rewrite_path", T + "SVGPath.absolute", T + "SVGPath.relative", T + "SVGPath.absolute_moveto"])
 def rewrite_callback(H):
     """absolute()/relative()/absolute_moveto() per command: same segment, except that an end point within 1e-9 of the
     subpath start may be snapped onto it (drift <= 1e-9 per coordinate, nothing else moves)."""
